@@ -56,6 +56,7 @@ def tool_cases(draw, name, tier):
     if name == "chain_from_iterable":
         case["params"]["outer"]["fl"] = draw(st.sampled_from(["agen", "aclass"]))
         case["params"]["outer"]["susp"] = 1
+        case["params"]["outer"]["falsy"] = draw(st.integers(0, 2)) == 0
     for spec in case["fns"].values():
         spec["fl"] = draw(st.sampled_from(["async", "obj", "objaw", "gencoro", "classaw"]))
         spec["susp"] = 1
